@@ -1215,6 +1215,20 @@ func (e *env) call(x *CallE) any {
 		}
 		a, b := sliceOf(e.eval(x.Args[0]), x.Args[0]), sliceOf(e.eval(x.Args[1]), x.Args[1])
 		return a.Len() == b.Len() && (a.Cap() == 0 && b.Cap() == 0 || a.Pointer() == b.Pointer())
+	case "within":
+		a, b := sliceOf(e.eval(x.Args[0]), x.Args[0]), sliceOf(e.eval(x.Args[1]), x.Args[1])
+		if a.Len() == 0 {
+			return true // an empty sub-slice: its position is not observable
+		}
+		if b.Len() == 0 {
+			return false
+		}
+		es := a.Type().Elem().Size()
+		if es == 0 {
+			return true
+		}
+		d := (a.Pointer() - b.Pointer())
+		return a.Pointer() >= b.Pointer() && d%es == 0 && int(d/es)+a.Len() <= b.Len()
 	case "suffixof":
 		a, b := sliceOf(e.eval(x.Args[0]), x.Args[0]), sliceOf(e.eval(x.Args[1]), x.Args[1])
 		if a.Len() > b.Len() {
